@@ -118,6 +118,7 @@ type FlowOpts struct {
 	StartEdge  *ssa.BasicBlock               // if set together with StartSucc: start on that out-edge of an If block
 	StartSucc  int
 	Init       []string // labels in the initial world
+	Sticky     []string // labels that survive loop back edges ("happened at least once" facts)
 	MaxWorlds  int
 }
 
@@ -343,6 +344,9 @@ func (e *Engine) flowOnce(fn *ssa.Function, o FlowOpts, genBlocks map[string]map
 		// back edge: drop labels generated inside the loop headed by `to`
 		if from != nil && to.Dominates(from) {
 			for l := range w.labels {
+				if isSticky(o.Sticky, l) {
+					continue
+				}
 				for bi := range genBlocks[l] {
 					if to.Dominates(fn.Blocks[bi]) {
 						delete(w.labels, l)
@@ -693,4 +697,13 @@ func (r *FlowResult) AllWorlds() []LabelSet {
 		out = append(out, ws...)
 	}
 	return out
+}
+
+func isSticky(sticky []string, l string) bool {
+	for _, s := range sticky {
+		if s == l {
+			return true
+		}
+	}
+	return false
 }
